@@ -22,6 +22,13 @@ CHECKS = {
         'prepare': 'zic',
         'assumptions': ZONENOTE,
     },
+    'C03': {
+        'bins': [rcbin('C03')],
+        'shards': {'quick': 12, 'thorough': 16},
+        'time_limit': {'quick': 900, 'thorough': 5400},
+        'prepare': 'zic',
+        'assumptions': ZONENOTE,
+    },
     'C04': {
         'bins': [rcbin('C04')],
         'shards': {'quick': 8, 'thorough': 16},
@@ -33,6 +40,20 @@ CHECKS = {
         'shards': {'quick': 8, 'thorough': 16},
         'time_limit': {'quick': 600, 'thorough': 3600},
         'assumptions': CALNOTE,
+    },
+    'C06': {
+        'bins': [rcbin('C06')],
+        'shards': {'quick': 12, 'thorough': 16},
+        'time_limit': {'quick': 900, 'thorough': 5400},
+        'prepare': 'zic',
+        'assumptions': ZONENOTE,
+    },
+    'C10': {
+        'bins': [rcbin('C10')],
+        'shards': {'quick': 12, 'thorough': 16},
+        'time_limit': {'quick': 900, 'thorough': 5400},
+        'prepare': 'zic',
+        'assumptions': ZONENOTE,
     },
     'C15': {
         'bins': [rcbin('C15')],
